@@ -19,7 +19,8 @@ THEOREMS = ["C08_member_iff", "C08_member_iff_halo", "C08_partitions", "C08_part
             "C08_upper_ascending", "C08_lossless", "C08_relative", "C08_ranges_tile", "C08_ranges_nested",
             "C08_nonuniform_model", "C08_iter_active", "C08_equal_bounds", "C08_unequal_bounds",
             "C08_position_model", "C08_uniform_bounds", "C08_uniform_bounds_ascending",
-            "C08_uniform_candidates", "C08_uniform_model", "C08_resplit_wf", "C08_model_meets_spec"]
+            "C08_uniform_candidates", "C08_uniform_model", "C08_resplit_wf", "C08_skipped_lossless",
+            "C08_model_meets_spec"]
 
 RULE = ("case = (split kind uniform/nonuniform/equal/unequal/truediv/floordiv with its argument, halo sizes "
         "0-3, relativeCoords, operand tree of depth 1-3 incl. explicit defaults and empty sub-fibers, leaf "
@@ -38,8 +39,8 @@ TRUSTED = ["Coq 8.16.1 kernel (coqc; coqchk in the thorough tier); vm_compute us
 ASSUMPTIONS = ["well-formed operands: strictly ascending non-negative integer coordinates, positive shape, "
                "non-empty active range, step > 0, strictly ascending split list, positive sizes (non-empty list), "
                "halos >= 0",
-               "depth > 0 goes through updatePayloads (S4 fixed in HEAD): elements with an empty payload above "
-               "the split level are left unsplit; the oracle expects exactly that",
+               "depth > 0 goes through updatePayloadsBelow (S4 and S29 fixed in HEAD): all-default sub-fibers at "
+               "the split level are emptied and left unsplit; the oracle expects exactly that",
                "deepcopy of the operand is value-preserving (property C10)"]
 EXPLANATION = ("oracle = reference map: boundaries enumerated, each lower fiber = filter of the non-empty elements "
                "by 'partition range extended by halos contains the coordinate'; theorems: the single-pass bucket "
